@@ -66,12 +66,8 @@ impl HarnessBuilder<'_> {
       .build();
     for dir in walker {
       let config_file = dir.with_context(|| EC::WalkRuleDir(test_path.clone()))?;
-      // file_type is None only if it is stdin, safe to unwrap here
-      if !config_file
-        .file_type()
-        .expect("file type should be available for non-stdin")
-        .is_file()
-      {
+      // file_type is None for stdin (a directory given as `-`): not a config file
+      if !config_file.file_type().is_some_and(|t| t.is_file()) {
         continue;
       }
       let path = config_file.path();
